@@ -315,7 +315,11 @@ def segGet (kvs : Kvs) (m : Name) : Except Err Tree :=
     | none => .error .key
     | some v => .ok v
 
-/-- write back the (mutated) object a segment denotes -/
+/-- give an existing key a new value (an absent key is not created) -/
+def replaceK (k : Name) (v : Tree) (kvs : Kvs) : Kvs :=
+  if (lookupK k kvs).isSome then insertK k v kvs else kvs
+
+/-- write back the (mutated in place) object a segment denotes -/
 def segPut (kvs : Kvs) (m : Name) (new : Tree) : Kvs :=
   if '[' ∈ m then
     match parseSeg m with
@@ -324,7 +328,7 @@ def segPut (kvs : Kvs) (m : Name) (new : Tree) : Kvs :=
       match lookupK name kvs with
       | none => kvs
       | some v => insertK name (putSub v is new) kvs
-  else insertK m new kvs
+  else replaceK m new kvs
 
 def isReserved (cfg : Cfg) (m : Name) : Bool :=
   cfg.reserved.contains m || (match m with | '_' :: '_' :: _ => true | _ => false)
